@@ -389,3 +389,34 @@ Lemma errs_mono_use id l : exists p, l_errs (use id l) = p ++ l_errs l.
 Proof. unfold use. destruct (lget l id); [exists [(UseUnborn, id)] | exists [] | exists [] | exists [(UseDead, id)]]; reflexivity. Qed.
 Lemma errs_mono_assign_to k id l : exists p, l_errs (assign_to k id l) = p ++ l_errs l.
 Proof. unfold assign_to. destruct (lget l id); [exists [(UseUnborn, id)] | exists [] | exists [] | exists [(UseDead, id)]]; reflexivity. Qed.
+
+(* "fact form" of the operations for client proofs: errors and lookups after a LEGAL operation *)
+Lemma construct_fact k x g : l_errs g = [] -> is_live (lget g x) = false ->
+  l_errs (construct k x g) = [] /\ forall id, lget (construct k x g) id = if x =? id then Alive else lget g id.
+Proof. intros E Hn. split; [rewrite errs_construct_fresh; assumption | intros; apply lget_construct]. Qed.
+
+Lemma destroy_fact x g : l_errs g = [] -> is_live (lget g x) = true ->
+  l_errs (destroy x g) = [] /\ forall id, lget (destroy x g) id = if x =? id then Dead else lget g id.
+Proof. intros E Hn. split; [rewrite errs_destroy_live; assumption | intros; apply lget_destroy_live; assumption]. Qed.
+
+Lemma move_from_fact x g : l_errs g = [] -> is_live (lget g x) = true ->
+  l_errs (move_from x g) = [] /\ forall id, lget (move_from x g) id = if x =? id then MovedFrom else lget g id.
+Proof. intros E Hn. split; [rewrite errs_move_from_live; assumption | intros; apply lget_move_from_live; assumption]. Qed.
+
+(* counters after each operation *)
+Lemma n_ctor_construct k x g : n_ctor (construct k x g) = n_ctor g + 1.
+Proof. unfold construct, n_ctor. destruct (is_live (lget g x)); destruct k; simpl; lia. Qed.
+Lemma n_dtor_construct k x g : n_dtor (construct k x g) = n_dtor g.
+Proof. unfold construct, n_dtor. destruct (is_live (lget g x)); destruct k; reflexivity. Qed.
+Lemma n_ctor_destroy x g : n_ctor (destroy x g) = n_ctor g.
+Proof. unfold destroy, n_ctor. destruct (lget g x); reflexivity. Qed.
+Lemma n_dtor_destroy x g : n_dtor (destroy x g) = n_dtor g + 1.
+Proof. unfold destroy, n_dtor. destruct (lget g x); reflexivity. Qed.
+Lemma n_ctor_move_from x g : n_ctor (move_from x g) = n_ctor g.
+Proof. unfold move_from, n_ctor. destruct (lget g x); reflexivity. Qed.
+Lemma n_dtor_move_from x g : n_dtor (move_from x g) = n_dtor g.
+Proof. unfold move_from, n_dtor. destruct (lget g x); reflexivity. Qed.
+Lemma n_ctor_use x g : n_ctor (use x g) = n_ctor g.
+Proof. unfold use, n_ctor. destruct (lget g x); reflexivity. Qed.
+Lemma n_dtor_use x g : n_dtor (use x g) = n_dtor g.
+Proof. unfold use, n_dtor. destruct (lget g x); reflexivity. Qed.
